@@ -161,7 +161,9 @@ func (l *localExecutor) Reader(task *Task, partition int) sliceio.ReadCloser {
 	l.mu.Unlock()
 	if !ok {
 		return sliceio.ReaderWithCloseFunc{
-			Reader:    sliceio.ErrReader(fmt.Errorf("no data for %v", task)),
+			// (The task's name, not the task: formatting a task reads its
+			// state without its lock, and it may be being discarded just now.)
+			Reader:    sliceio.ErrReader(fmt.Errorf("no data for task %v", task.Name)),
 			CloseFunc: func() error { return nil },
 		}
 	}
